@@ -15,10 +15,21 @@
     adversarial order (around every unit boundary in both directions, inside one bucket of every unit, exactly one
     unit apart, alternating / repeated / descending, one field changed, clock-reading variants in between); every
     call judged by TLC against the pure operators -- anything remembered between calls is visible only here.
+(K) gen conc: many goroutines call every helper (and DateFormat values of their own) on different instants at once;
+    every distinct value returned under concurrency is an event judged by TLC like a sequential one.
+(Z) gen zone: child processes under TZ = zones with daylight saving (whole-hour and 30-minute shifts, both
+    hemispheres) and fixed offsets; FormatTime(local) -> Parse -> FormatTime on and around every offset transition,
+    judged by the zone-free law on the wall-clock readings (DateFormat.tla Shift, ZoneRoundTripOK) and r = x.
 (S) every minute boundary -1/0/+1 ms of the century against the Go transliteration of Helpers, which sampled `ref`
     events bind to the specification; disagreements are judged by TLC (gen sweepfail).
 
 Finding fixed in the worktree: TimeStamp (and the unexported logtime) padded the millisecond field to two digits."""
+
+
+# process zones of gen zone: daylight saving in both hemispheres, a 30-minute shift, a fixed offset that is not a
+# whole hour; thorough: also transitions at local midnight, a zone that skipped a calendar day, a western fixed offset
+ZONES = ["America/New_York", "Europe/Berlin", "Australia/Lord_Howe", "Asia/Kolkata"]
+ZONES_THOROUGH = ZONES + ["America/Havana", "Pacific/Apia", "America/Phoenix"]
 
 
 def selftest_ref(run, out, meta):
@@ -52,23 +63,32 @@ def selftest_ref(run, out, meta):
 def body(run):
     # -coverage triples the run time of this single-action model; vacuity is excluded directly instead:
     # the walk must have visited at least one state per day of the century
-    r = run.mc("MC_Calendar", workers=run.pick(4, 16), cfg="MC_Calendar_thorough.cfg" if run.thorough() else "MC_Calendar.cfg")
+    r = run.mc("MC_Calendar", workers=run.pick(4, 16), cfg="MC_Calendar_thorough.cfg" if run.thorough() else "MC_Calendar.cfg", heap=run.pick("4g", None))
     if r["distinct"] < 36525:
         from vf import MachineryError
         raise MachineryError("MC_Calendar visited %d states, fewer than the 36525 days of the century" % r["distinct"])
-    run.mc("MC_Calendar", workers=run.pick(2, 4), cfg="MC_Calendar_order.cfg")
+    run.mc("MC_Calendar", workers=run.pick(2, 4), cfg="MC_Calendar_order.cfg", heap="2g")
     out, meta = run.drive("c19")
     run.absorb(meta)
     run.validate(out, meta)
+    # (Z) the process zone as a configuration: one child process per zone (the driver re-executes itself with TZ=zone, one trace per zone;
+    # the zone travels in -args so that a rejected history is reproduced under the same zone)
+    oz, mz = run.drive("c19", args={"zone": "+".join(ZONES_THOROUGH if run.thorough() else ZONES)}, outdir=run.sub("drive-c19-zones"))
+    run.absorb(mz)
+    run.validate(oz, mz)
     if not run.violations:      # the binding is demonstrated on accepted traces; a violation must stay exit 1
         run.selftest(out, meta, gen="days", field="ts")
         run.selftest(out, meta, gen="fmt", field="text")
         run.selftest(out, meta, gen="seq", field="ymd")
         run.selftest(out, meta, gen="fmtseq", field="text")
         selftest_ref(run, out, meta)
+        run.selftest(out, meta, gen="conc", field="ts")
+        run.selftest(oz, mz, gen="zone", field="rms")
     run.assumptions += [
         "time is handed to TLC as (day index from 2000-01-01 UTC, millisecond of day); the harness converts to and from epoch milliseconds with integer arithmetic and package time only (never golib), and the standard library's own text of each day is compared with the spec's (so the spec's calendar = the standard library's)",
-        "the driver pins the process zone to UTC (time.Local = time.UTC; the runner also sets TZ=UTC): DateFormat.Parse resolves fields in time.Now().Location(), the date helpers are UTC by construction (getDateTimeHelper(\"\"))",
+        "the driver pins the process zone to UTC (time.Local = time.UTC; the runner also sets TZ=UTC) except in gen zone: DateFormat.Parse resolves fields in time.Now().Location(), the date helpers are UTC by construction (getDateTimeHelper(\"\"))",
+        "gen zone: the zone's offsets at the formatted instant and at the parsed result and the transition instants come from package time and the zone database (trusted); a reading that occurs twice (clocks set back) may parse to either of its instants; in zones with transitions only full patterns are judged (an absent field, taken from the clock, can land in a skipped reading)",
+        "gen conc: how many calls overlap depends on the scheduler, so load can only lose detection; each goroutine uses DateFormat values of its own (sharing one value is outside the property); the Go side only deduplicates returned values, TLC judges every distinct one",
         "DateFormat round trip: fields absent from the pattern are unconstrained (the code fills them from the clock); a present date field is unconstrained exactly where an absent one can push it through date normalisation (Required in DateFormat.tla, shown sound and tight by MC_Calendar); for full patterns the result must equal the instant to the millisecond",
         "sequences (gens seq, fmtseq): the specification makes every helper a function of the instant (and pattern) alone, so each call of a sequence is judged on its own against Helpers(t) / Format(p, t) and the units against MonotoneStep along the sequence; the clock-reading variants (YmdNow, TimeStampNow, GetDateUnitNow) are called with the library clock moved by SetDelta to noon of a day and judged to the day only (an event is dropped, never rejected, if the system clock moved by more than six hours during the calls)",
         "every minute boundary -1/0/+1 ms of the century (158 million instants; texts at every 16th minute in the quick tier) is swept against a Go transliteration of the spec operators, not judged by TLC; TLC judges the sampled triples (with the transliteration's outputs) and every disagreement",
